@@ -57,6 +57,7 @@ func runConnScenario(sc connScenario) *connResult {
 	e := newConnEnv(hdrKind(sc.Hdr), sc.DirectIO, sc.Pipe)
 	res := &connResult{env: e, doneIdx: map[int]int{}, doneErr: map[int]string{}}
 	gate.Settle(2 * time.Second)
+	arrMark := 0
 	for _, a := range sc.Actions {
 		f := strings.Fields(a)
 		ok := true
@@ -110,18 +111,27 @@ func runConnScenario(sc connScenario) *connResult {
 			}
 		case "drain":
 			// release every gate that is still held, repeatedly, until nothing is parked
-			for round := 0; round < 64; round++ {
+			// one gate at a time, in sorted key order, settling in between (the order in which
+			// two released threads proceed would otherwise be a race)
+			for round := 0; round < 4096; round++ {
 				pk := e.hub.ParkedKeys()
 				if len(pk) == 0 {
 					break
 				}
 				sort.Strings(pk)
-				for _, key := range pk {
-					e.hub.Release(key, gate.Verdict{})
-				}
+				e.hub.Release(pk[0], gate.Verdict{})
 				gate.Settle(3 * time.Second)
 			}
 			e.hub.UnholdAll()
+		case "holddec":
+			if sc.DirectIO {
+				ok = false // the reader decodes inline: holding it would hold the reader
+			} else {
+				e.hub.Hold("dec")
+			}
+		case "reldec":
+			e.hub.Unhold("dec")
+			e.hub.Release("dec", gate.Verdict{})
 		case "probe":
 		default:
 			ok = false
@@ -136,6 +146,18 @@ func runConnScenario(sc connScenario) *connResult {
 		if !gate.Settle(3 * time.Second) {
 			res.stuck = a
 		}
+		if !sc.Pipe {
+			// without pipelining the completions caused by one action race with one another:
+			// their order on the shared channel is canonicalised (sorted) on both sides
+			e.mu.Lock()
+			if arrMark <= len(e.arrivals) {
+				sort.Ints(e.arrivals[arrMark:])
+			}
+			e.mu.Unlock()
+		}
+		e.mu.Lock()
+		arrMark = len(e.arrivals)
+		e.mu.Unlock()
 		if os.Getenv("CORR_DEBUG") != "" && time.Since(t0) > 50*time.Millisecond {
 			fmt.Fprintf(os.Stderr, "   SLOW settle %v busy=%s\n", time.Since(t0), gate.LastBusy)
 		}
@@ -217,6 +239,47 @@ func checkConn(sc connScenario, r *connResult) []connVerdict {
 			}
 		}
 	}
+	// The connection has ended for the library when its reader has swept; while the decode worker
+	// is parked (gate `dec`) behind an EOF or a read error the reader is still draining the decode
+	// queue and the connection is still open for new calls. A local Close refuses new calls at once.
+	decParkedAt := func(i int) bool {
+		if i < 0 || i >= len(r.obs) {
+			return false
+		}
+		j := strings.Index(r.obs[i], "parked=[")
+		if j < 0 {
+			return false
+		}
+		k := strings.Index(r.obs[i][j:], "]")
+		for _, key := range strings.Split(r.obs[i][j+8:j+k], ",") {
+			if key == "dec" {
+				return true
+			}
+		}
+		return false
+	}
+	// closedWhileUndecoded(ri): the response fed at action ri joined the held decode queue and the
+	// caller closed the connection itself while it was still there
+	closedWhileUndecoded := func(ri int) bool {
+		if !decParkedAt(ri) {
+			return false
+		}
+		for i := ri + 1; i < len(r.actions); i++ {
+			if !decParkedAt(i) {
+				return false
+			}
+			if r.actions[i] == "close" {
+				return true
+			}
+		}
+		return false
+	}
+	refuseIdx := endIdx // from here on new calls must be refused
+	if endIdx >= 0 && endKind != "close" {
+		for refuseIdx < len(r.obs)-1 && decParkedAt(refuseIdx) {
+			refuseIdx++
+		}
+	}
 	ended := endIdx >= 0
 	last := len(r.actions) - 1
 	for _, k := range e.order {
@@ -250,7 +313,7 @@ func checkConn(sc connScenario, r *connResult) []connVerdict {
 			}
 		}
 		si := startIdx[k]
-		startedAfterEnd := ended && si > endIdx
+		startedAfterEnd := ended && si > refuseIdx
 		if ci0, c0 := cancelIdx[k]; startedAfterEnd && c0 && c.form == "ctx" && ci0 <= di && errClass == "canceled" {
 			continue
 		}
@@ -291,6 +354,9 @@ func checkConn(sc connScenario, r *connResult) []connVerdict {
 			// C03 (received before the cut) / C01 / C06: the outcome is the one that was sent for this call
 			if errClass != want {
 				switch {
+				case ended && closedWhileUndecoded(ri) && (errClass == "shutdown" || errClass == "rfail"):
+					// the response was still undecoded when the caller itself closed the connection:
+					// a local Close abandons what has not been handed to its call yet (DESIGN.md, C03)
 				case ended && (errClass == "shutdown" || errClass == "rfail" || errClass == "eof"):
 					add("C03", "received-response-survives", "C03/received-response-lost/"+mode, fmt.Sprintf("call %d: its response (%s) had been returned by ReadMessage before the connection ended (%s), yet it completed with %s", k, respKind[k], endKind, errClass))
 				case strings.HasPrefix(want, "text:"):
@@ -410,8 +476,8 @@ func checkConn(sc connScenario, r *connResult) []connVerdict {
 			if c == nil || (c.form != "go" && c.form != "rt") {
 				continue
 			}
-			if _, wf := wretErrIdx[k]; wf || c.failEnc {
-				continue // local failures (request never reached the wire) complete at once
+			if _, wf := wretErrIdx[k]; wf || c.failEnc || !c.written {
+				continue // local failures (request never reached the wire: write or encode failure, refusal after Close / shutdown) complete at once
 			}
 			if pos[k] < lastPos {
 				add("C05", "client-completion-order", "C05/client-order/"+fmt.Sprintf("dio%d", b2i(sc.DirectIO)), fmt.Sprintf("completions arrived in order %v but the calls were issued in order %v", e.arrivals, e.order))
@@ -458,6 +524,12 @@ func connCorpus() []connScenario {
 		mk("response-then-eof", "go 1 32 8 0 0", "go 2 32 8 0 0", "resp 1 ok", "eof", "probe")
 		mk("response-body-held-then-eof", "go 1 32 8 0 1", "resp 1 ok", "eof", "brel 1", "probe")
 		mk("error-response-then-eof", "call 1 32 8 0 0", "resp 1 err:40", "eof", "probe")
+		if !m.d {
+			// responses read from the socket but still in the decode queue when the stream ends
+			mk("decode-held-then-eof", "go 1 32 8 0 0", "go 2 32 8 0 0", "go 3 32 8 0 0", "holddec", "resp 1 ok", "resp 2 ok", "eof", "probe", "reldec", "probe")
+			mk("decode-held-then-rerr", "call 1 32 8 0 0", "go 2 32 8 0 0", "holddec", "resp 2 err:20", "resp 1 ok", "rerr", "probe", "reldec", "probe")
+			mk("decode-held-then-close", "go 1 32 8 0 0", "rt 2 32 8 0 0", "holddec", "resp 1 ok", "close", "probe", "reldec", "probe")
+		}
 		// duplicates and strays
 		mk("duplicate-response", "go 1 32 8 0 0", "go 2 32 8 0 0", "resp 1 ok", "dup 1", "resp 1 dup", "resp 2 ok", "unk", "junk 0", "junk 1", "probe", "eof")
 		mk("stray-then-real", "go 1 32 8 0 0", "unk", "junk 3", "resp 1 ok", "probe", "close")
@@ -499,6 +571,7 @@ func genConnScenario(r *prng.R, tier string) connScenario {
 	var ks []int
 	next := 1
 	ended := false
+	decHeld := false
 	pick := func(f func(*st) bool) int {
 		var c []int
 		for _, k := range ks {
@@ -604,6 +677,15 @@ func genConnScenario(r *prng.R, tier string) connScenario {
 				ended = true
 			} else if r.Chance(1, 2) {
 				sc.Actions = append(sc.Actions, "close")
+			}
+		case x < 98:
+			// park the decode worker at its next frame / let it go on
+			if decHeld {
+				decHeld = false
+				sc.Actions = append(sc.Actions, "reldec")
+			} else if !sc.DirectIO {
+				decHeld = true
+				sc.Actions = append(sc.Actions, "holddec")
 			}
 		default:
 			sc.Actions = append(sc.Actions, "probe")
